@@ -8,7 +8,7 @@ assignments and branches the current source has.  Anything it does not know
 makes the pair UNDECIDED, never a violation."""
 import ast
 
-from .core import AnalysisError, dotted, norm, stmts_of, kwarg
+from .core import AnalysisError, PKG, dotted, norm, stmts_of, kwarg
 
 IN_TYPES = ["i1", "i2", "i4", "i8", "u1", "u2", "u4", "u8", "f4", "f8"]
 OUT_TYPES = ["u1", "u2", "u4", "u8", "f4"]
@@ -135,6 +135,15 @@ class Unknown:
     pass
 
 
+class Record:
+    """A namedtuple value: fields by name, and the class that may add
+    properties."""
+
+    def __init__(self, fields, cls=None):
+        self.fields = fields
+        self.cls = cls
+
+
 UNKNOWN = Unknown()
 ABSTRACT_KINDS = {"integer": "iu", "signedinteger": "i", "unsignedinteger": "u",
                   "floating": "f", "number": "iuf", "inexact": "f"}
@@ -179,6 +188,24 @@ class Interp:
                     return LONG[base.code]
                 if node.attr == "type":
                     return ("scalar-type", base)
+            if isinstance(base, Record):
+                if node.attr in base.fields:
+                    return base.fields[node.attr]
+                if base.cls is not None:
+                    for cc in self.module.repo.mro(base.cls):
+                        pf = cc.methods.get(node.attr)
+                        if pf is not None and any(
+                                "property" in norm(d)
+                                for d in pf.node.decorator_list):
+                            e2 = {pf.params[0]: base} if pf.params else {}
+                            self._depth = getattr(self, "_depth", 0) + 1
+                            try:
+                                if self._depth > 4:
+                                    raise Undecided("recursion")
+                                self._block(pf.node.body, e2)
+                            finally:
+                                self._depth -= 1
+                            return e2.get("<return>")
             if isinstance(base, Arr) and node.attr == "dtype":
                 return base.dtype
             if isinstance(base, Arr) and node.attr == "flags":
@@ -330,7 +357,97 @@ class Interp:
                 fv = None
         if isinstance(fv, tuple) and fv and fv[0] == "scalar-type":
             return self.ev(args[0], env)
+        r = self._pkg_call(node, env)
+        if r is not NotImplemented:
+            return r
         raise Undecided("call %s" % norm(node)[:60])
+
+    def _record_fields(self, name):
+        """(fields, class) when `name` constructs a namedtuple of the
+        package: class X(namedtuple(...)) without its own constructor, or
+        X = namedtuple(...)."""
+        from .rules_more2 import _namedtuple_fields
+        tgt = self.module.resolve(name) or name
+        leaf = tgt.rsplit(".", 1)[-1]
+        for m in self.module.repo.modules.values():
+            if leaf in m.classes and (m is self.module or
+                                      tgt.startswith(m.name + ".")):
+                ci = m.classes[leaf]
+                if "__init__" in ci.methods or "__new__" in ci.methods:
+                    return None
+                for b in ci.node.bases:
+                    fl = _namedtuple_fields(b)
+                    if fl:
+                        return fl, ci
+            if leaf in m.constants and (m is self.module or
+                                        tgt.startswith(m.name + ".")):
+                fl = _namedtuple_fields(m.constants[leaf])
+                if fl:
+                    return fl, None
+        return None
+
+    def _pkg_call(self, node, env):
+        """A call of a namedtuple constructor or of a module-level function
+        of the package: the function's body is interpreted on the argument
+        values (its own locals, the module's resolution of names)."""
+        d = dotted(node.func)
+        if d is None or any(isinstance(a, ast.Starred) for a in node.args) \
+                or any(k.arg is None for k in node.keywords):
+            return NotImplemented
+        rf = self._record_fields(d)
+        if rf is not None:
+            fields, ci = rf
+            vals = {}
+            for f_, a in zip(fields, node.args):
+                vals[f_] = self.ev(a, env)
+            for k in node.keywords:
+                vals[k.arg] = self.ev(k.value, env)
+            if set(vals) != set(fields):
+                return NotImplemented
+            return Record(vals, ci)
+        tgt = self.module.resolve(d) or d
+        h, hm = None, None
+        if "." not in d and d in self.module.functions and \
+                self.module.functions[d].cls is None and \
+                self.module.functions[d].parent is None:
+            h, hm = self.module.functions[d], self.module
+        elif tgt.startswith(PKG + ".") and "." in tgt:
+            mn, fnm = tgt.rsplit(".", 1)
+            om = self.module.repo.modules.get(mn)
+            if om is not None and fnm in om.functions and \
+                    om.functions[fnm].cls is None:
+                h, hm = om.functions[fnm], om
+        if h is None:
+            return NotImplemented
+        a = h.node.args
+        if a.vararg or a.kwarg:
+            return NotImplemented
+        names = [x.arg for x in a.posonlyargs + a.args]
+        if len(node.args) > len(names):
+            return NotImplemented
+        e2 = {}
+        for nm, av in zip(names, node.args):
+            e2[nm] = self.ev(av, env)
+        kwnames = names + [x.arg for x in a.kwonlyargs]
+        for k in node.keywords:
+            if k.arg not in kwnames:
+                return NotImplemented
+            e2[k.arg] = self.ev(k.value, env)
+        sub = Interp(hm)
+        sub._depth = getattr(self, "_depth", 0) + 1
+        if sub._depth > 4:
+            raise Undecided("recursion")
+        defaults = dict(zip(names[len(names) - len(a.defaults):], a.defaults))
+        defaults.update({x.arg: dv for x, dv in zip(a.kwonlyargs,
+                                                    a.kw_defaults)
+                         if dv is not None})
+        for nm in kwnames:
+            if nm not in e2:
+                if nm not in defaults:
+                    return NotImplemented
+                e2[nm] = sub.ev(defaults[nm], {})
+        sub._block(h.node.body, e2)
+        return e2.get("<return>")
 
     # --- statement level, outer function -----------------------------
     def run_outer(self, fnode, env):
@@ -356,6 +473,8 @@ class Interp:
                 if t is UNKNOWN:
                     raise Undecided("unknown condition %s" % norm(st.test))
                 self._block(st.body if t else st.orelse, env)
+                if "<return>" in env:
+                    return
             elif isinstance(st, ast.Expr):
                 if isinstance(st.value, ast.Constant):
                     continue
@@ -501,7 +620,18 @@ def converter_lattice(repo, col, in_types=None):
         for warn in (False, True):
             interp = Interp(outer.module)
             env = {p_in: DT(i), p_out: DT(o), "warn": warn}
-            for p in params[2:]:
+            a_ = outer.node.args
+            allp = [x.arg for x in a_.posonlyargs + a_.args]
+            dflt = dict(zip(allp[len(allp) - len(a_.defaults):],
+                            a_.defaults))
+            dflt.update({x.arg: dv for x, dv in zip(a_.kwonlyargs,
+                                                    a_.kw_defaults)
+                         if dv is not None})
+            for p in params[2:] + [x.arg for x in a_.kwonlyargs]:
+                if p != "warn" and isinstance(dflt.get(p), ast.Constant):
+                    # an option with a constant default: the behaviour every
+                    # caller gets who does not ask for something else
+                    env.setdefault(p, dflt[p].value)
                 env.setdefault(p, warn)
             try:
                 interp.run_outer(outer.node, env)
